@@ -45,6 +45,72 @@ def LeavesWf : Expr K → Prop
   | .sc _ a _ => LeavesWf a
   | .vc _ a _ => LeavesWf a
 
+/-! #### attribute equations of the constructors (`rfl`), used instead of unfolding -/
+
+section attr
+variable {K : Type}
+
+@[simp] theorem Impl.dom_leaf (i : Leaf) : (Impl.leaf i : Impl K).dom = i.dom := rfl
+@[simp] theorem Impl.dom_sum (fn : Bool) (l r : Impl K) : (Impl.sum fn l r : Impl K).dom = l.dom := rfl
+@[simp] theorem Impl.dom_scalSum (f : Impl K) (c : K) : (Impl.scalSum f c : Impl K).dom = f.dom := rfl
+@[simp] theorem Impl.dom_vecSum (a : Impl K) (v : Vec K) : (Impl.vecSum a v : Impl K).dom = a.dom := rfl
+@[simp] theorem Impl.dom_comp (fn : Bool) (l r : Impl K) : (Impl.comp fn l r : Impl K).dom = r.dom := rfl
+@[simp] theorem Impl.dom_pprod (fn : Bool) (l r : Impl K) : (Impl.pprod fn l r : Impl K).dom = l.dom := rfl
+@[simp] theorem Impl.dom_quot (l r : Impl K) : (Impl.quot l r : Impl K).dom = l.dom := rfl
+@[simp] theorem Impl.dom_lscal (fn : Bool) (a : Impl K) (s : K) : (Impl.lscal fn a s : Impl K).dom = a.dom := rfl
+@[simp] theorem Impl.dom_rscal (fn : Bool) (a : Impl K) (s : K) : (Impl.rscal fn a s : Impl K).dom = a.dom := rfl
+@[simp] theorem Impl.dom_lvec (a : Impl K) (v : Vec K) : (Impl.lvec a v : Impl K).dom = a.dom := rfl
+@[simp] theorem Impl.dom_rvec (fn : Bool) (a : Impl K) (v : Vec K) : (Impl.rvec fn a v : Impl K).dom = a.dom := rfl
+@[simp] theorem Impl.dom_flvec (a : Impl K) (v : VecLit K) : (Impl.flvec a v : Impl K).dom = a.dom := rfl
+@[simp] theorem Impl.dom_const (d : Sp) (c : Vec K) : (Impl.const d c : Impl K).dom = d := rfl
+@[simp] theorem Impl.dom_zero (d : Sp) : (Impl.zero d : Impl K).dom = d := rfl
+@[simp] theorem Impl.ran_leaf (i : Leaf) : (Impl.leaf i : Impl K).ran = i.ran := rfl
+@[simp] theorem Impl.ran_sum (fn : Bool) (l r : Impl K) : (Impl.sum fn l r : Impl K).ran = l.ran := rfl
+@[simp] theorem Impl.ran_scalSum (f : Impl K) (c : K) : (Impl.scalSum f c : Impl K).ran = f.ran := rfl
+@[simp] theorem Impl.ran_vecSum (a : Impl K) (v : Vec K) : (Impl.vecSum a v : Impl K).ran = a.ran := rfl
+@[simp] theorem Impl.ran_comp (fn : Bool) (l r : Impl K) : (Impl.comp fn l r : Impl K).ran = l.ran := rfl
+@[simp] theorem Impl.ran_pprod (fn : Bool) (l r : Impl K) : (Impl.pprod fn l r : Impl K).ran = l.ran := rfl
+@[simp] theorem Impl.ran_quot (l r : Impl K) : (Impl.quot l r : Impl K).ran = Sp.fld := rfl
+@[simp] theorem Impl.ran_lscal (fn : Bool) (a : Impl K) (s : K) : (Impl.lscal fn a s : Impl K).ran = a.ran := rfl
+@[simp] theorem Impl.ran_rscal (fn : Bool) (a : Impl K) (s : K) : (Impl.rscal fn a s : Impl K).ran = a.ran := rfl
+@[simp] theorem Impl.ran_lvec (a : Impl K) (v : Vec K) : (Impl.lvec a v : Impl K).ran = a.ran := rfl
+@[simp] theorem Impl.ran_rvec (fn : Bool) (a : Impl K) (v : Vec K) : (Impl.rvec fn a v : Impl K).ran = a.ran := rfl
+@[simp] theorem Impl.ran_flvec (a : Impl K) (v : VecLit K) : (Impl.flvec a v : Impl K).ran = Sp.vec v.n := rfl
+@[simp] theorem Impl.ran_const (d : Sp) (c : Vec K) : (Impl.const d c : Impl K).ran = Sp.fld := rfl
+@[simp] theorem Impl.ran_zero (d : Sp) : (Impl.zero d : Impl K).ran = Sp.fld := rfl
+@[simp] theorem Impl.isFn_leaf (i : Leaf) : (Impl.leaf i : Impl K).isFn = i.fn := rfl
+@[simp] theorem Impl.isFn_sum (fn : Bool) (l r : Impl K) : (Impl.sum fn l r : Impl K).isFn = fn := rfl
+@[simp] theorem Impl.isFn_scalSum (f : Impl K) (c : K) : (Impl.scalSum f c : Impl K).isFn = true := rfl
+@[simp] theorem Impl.isFn_vecSum (a : Impl K) (v : Vec K) : (Impl.vecSum a v : Impl K).isFn = false := rfl
+@[simp] theorem Impl.isFn_comp (fn : Bool) (l r : Impl K) : (Impl.comp fn l r : Impl K).isFn = fn := rfl
+@[simp] theorem Impl.isFn_pprod (fn : Bool) (l r : Impl K) : (Impl.pprod fn l r : Impl K).isFn = fn := rfl
+@[simp] theorem Impl.isFn_quot (l r : Impl K) : (Impl.quot l r : Impl K).isFn = true := rfl
+@[simp] theorem Impl.isFn_lscal (fn : Bool) (a : Impl K) (s : K) : (Impl.lscal fn a s : Impl K).isFn = fn := rfl
+@[simp] theorem Impl.isFn_rscal (fn : Bool) (a : Impl K) (s : K) : (Impl.rscal fn a s : Impl K).isFn = fn := rfl
+@[simp] theorem Impl.isFn_lvec (a : Impl K) (v : Vec K) : (Impl.lvec a v : Impl K).isFn = false := rfl
+@[simp] theorem Impl.isFn_rvec (fn : Bool) (a : Impl K) (v : Vec K) : (Impl.rvec fn a v : Impl K).isFn = fn := rfl
+@[simp] theorem Impl.isFn_flvec (a : Impl K) (v : VecLit K) : (Impl.flvec a v : Impl K).isFn = false := rfl
+@[simp] theorem Impl.isFn_const (d : Sp) (c : Vec K) : (Impl.const d c : Impl K).isFn = true := rfl
+@[simp] theorem Impl.isFn_zero (d : Sp) : (Impl.zero d : Impl K).isFn = true := rfl
+
+variable [OfNat K 0] [DecidableEq K]
+
+@[simp] theorem Impl.lin_leaf (i : Leaf) : (Impl.leaf i : Impl K).lin = i.lin := rfl
+@[simp] theorem Impl.lin_sum (fn : Bool) (l r : Impl K) : (Impl.sum fn l r : Impl K).lin = (l.lin && r.lin) := rfl
+@[simp] theorem Impl.lin_scalSum (f : Impl K) (c : K) : (Impl.scalSum f c : Impl K).lin = (f.lin && decide (c = 0)) := rfl
+@[simp] theorem Impl.lin_vecSum (a : Impl K) (v : Vec K) : (Impl.vecSum a v : Impl K).lin = false := rfl
+@[simp] theorem Impl.lin_comp (fn : Bool) (l r : Impl K) : (Impl.comp fn l r : Impl K).lin = (l.lin && r.lin) := rfl
+@[simp] theorem Impl.lin_pprod (fn : Bool) (l r : Impl K) : (Impl.pprod fn l r : Impl K).lin = false := rfl
+@[simp] theorem Impl.lin_quot (l r : Impl K) : (Impl.quot l r : Impl K).lin = false := rfl
+@[simp] theorem Impl.lin_lscal (fn : Bool) (a : Impl K) (s : K) : (Impl.lscal fn a s : Impl K).lin = a.lin := rfl
+@[simp] theorem Impl.lin_rscal (fn : Bool) (a : Impl K) (s : K) : (Impl.rscal fn a s : Impl K).lin = a.lin := rfl
+@[simp] theorem Impl.lin_lvec (a : Impl K) (v : Vec K) : (Impl.lvec a v : Impl K).lin = a.lin := rfl
+@[simp] theorem Impl.lin_rvec (fn : Bool) (a : Impl K) (v : Vec K) : (Impl.rvec fn a v : Impl K).lin = (if fn then false else a.lin) := rfl
+@[simp] theorem Impl.lin_flvec (a : Impl K) (v : VecLit K) : (Impl.flvec a v : Impl K).lin = a.lin := rfl
+@[simp] theorem Impl.lin_const (d : Sp) (c : Vec K) : (Impl.const d c : Impl K).lin = decide (c 0 = 0) := rfl
+@[simp] theorem Impl.lin_zero (d : Sp) : (Impl.zero d : Impl K).lin = true := rfl
+end attr
+
 variable [Field K] [DecidableEq K]
 
 /-- Invariant of every object the dispatch produces. -/
@@ -492,5 +558,204 @@ theorem run_opRMulVec {a c : Impl K} {v : VecLit K} (h : opRMulVec v a = some c)
   · rfl
 
 end run_lemmas
+
+/-! ### typing -/
+
+/-- functionals have the field as range -/
+def FnRan (i : Impl K) : Prop := i.isFn = true → i.ran = .fld
+
+/-- type of a sum as the documented rule gives it -/
+def sumTy (s t : Ty) : Option Ty :=
+  if s.dom = t.dom ∧ s.ran = t.ran then some ⟨s.dom, s.ran, s.fn && t.fn⟩ else none
+
+omit [Field K] [DecidableEq K] in
+theorem ty_mkSum (a b : Impl K) : (mkSum a b).map Impl.ty = sumTy a.ty b.ty := by
+  unfold mkSum sumTy
+  split_ifs <;> simp_all [Impl.ty]
+
+omit [Field K] [DecidableEq K] in
+theorem sumTy_comm (s t : Ty) : sumTy s t = sumTy t s := by
+  unfold sumTy
+  split_ifs with h1 h2 h2
+  · simp [h1.1, h1.2, Bool.and_comm]
+  · exact absurd ⟨h1.1.symm, h1.2.symm⟩ h2
+  · exact absurd ⟨h2.1.symm, h2.2.symm⟩ h1
+  · rfl
+
+omit [Field K] [DecidableEq K] in
+theorem ty_opAdd (a b : Impl K) : (opAdd a b).map Impl.ty = sumTy a.ty b.ty := by
+  unfold opAdd
+  split_ifs
+  · rw [ty_mkSum, sumTy_comm]
+  · exact ty_mkSum a b
+
+omit [Field K] [DecidableEq K] in
+theorem fnRan_mkSum {a b c : Impl K} (h : mkSum a b = some c) (ha : FnRan a) : FnRan c := by
+  unfold mkSum at h
+  split_ifs at h; cases h
+  intro hfn
+  simp only [Impl.isFn_sum, Bool.and_eq_true] at hfn
+  simpa using ha hfn.1
+
+omit [Field K] [DecidableEq K] in
+theorem fnRan_opAdd {a b c : Impl K} (h : opAdd a b = some c) (ha : FnRan a) (hb : FnRan b) :
+    FnRan c := by
+  unfold opAdd at h
+  split_ifs at h
+  · exact fnRan_mkSum h hb
+  · exact fnRan_mkSum h ha
+
+
+theorem ran_opRMulScal (a : Impl K) (s : K) (h : FnRan a) : (opRMulScal s a).ran = a.ran := by
+  unfold opRMulScal
+  split_ifs with h1 h2
+  · rw [h h1]; rfl
+  · exact ran_mkLScal ..
+  · exact ran_mkLScal ..
+
+theorem ty_opRMulScal (a : Impl K) (s : K) (h : FnRan a) : (opRMulScal s a).ty = a.ty := by
+  simp only [Impl.ty, dom_opRMulScal, ran_opRMulScal a s h, isFn_opRMulScal]
+
+theorem ran_opMulScal (env : Nat → Vec K → Vec K) (a : Impl K) (s : K) (h : FnRan a) :
+    (opMulScal env a s).ran = a.ran := by
+  unfold opMulScal
+  by_cases h1 : a.isFn = true
+  · rw [if_pos h1]
+    by_cases h2 : s = 0
+    · rw [if_pos h2, h h1]; rfl
+    · rw [if_neg h2]
+      by_cases h3 : a.lin = true
+      · rw [if_pos h3, ran_mkLScal]
+      · rw [if_neg h3, ran_mkRScal]
+  · rw [if_neg h1]
+    cases hp : rscalParts a with
+    | some p =>
+      obtain ⟨a', t⟩ := p
+      obtain ⟨fn, rfl⟩ := rscalParts_some hp
+      simp only [ran_mkRScal]; rfl
+    | none =>
+      simp only
+      by_cases h4 : a.lin = true
+      · rw [if_pos h4]; exact ran_opRMulScal a s h
+      · rw [if_neg h4]; exact ran_mkRScal ..
+
+theorem ty_opMulScal (env : Nat → Vec K → Vec K) (a : Impl K) (s : K) (h : FnRan a) :
+    (opMulScal env a s).ty = a.ty := by
+  simp only [Impl.ty, dom_opMulScal, ran_opMulScal env a s h, isFn_opMulScal]
+
+omit [Field K] [DecidableEq K] in
+theorem fnRan_of_ty {a b : Impl K} (h : b.ty = a.ty) (ha : FnRan a) : FnRan b := by
+  simp only [Impl.ty, Ty.mk.injEq] at h
+  intro hb; rw [h.2.1]; exact ha (h.2.2 ▸ hb)
+
+omit [Field K] [DecidableEq K] in
+theorem dom_powAux (a : Impl K) (k : Nat) : (powAux a k).dom = a.dom := by
+  induction k with
+  | zero => rfl
+  | succ k ih => simp [powAux, ih]
+
+omit [Field K] [DecidableEq K] in
+theorem ran_powAux (a : Impl K) (k : Nat) : (powAux a k).ran = a.ran := by
+  cases k <;> simp [powAux]
+
+
+/-- type of `A + scalar` -/
+def addScalTy (t : Ty) : Option Ty :=
+  if t.fn then some t else match t.ran with
+    | .vec _ => some t
+    | .fld => none
+
+omit [DecidableEq K] in
+theorem ty_opAddScal (a : Impl K) (s : K) : (opAddScal a s).map Impl.ty = addScalTy a.ty := by
+  unfold opAddScal addScalTy
+  by_cases hf : a.isFn = true
+  · simp [hf, Impl.ty]
+  · have hf' : a.isFn = false := by simpa using hf
+    simp only [Impl.ty, hf', Bool.false_eq_true, if_false]
+    cases hr : a.ran <;> simp [Impl.ty, hr, hf']
+
+omit [DecidableEq K] in
+theorem fnRan_opAddScal {a c : Impl K} {s : K} (h : opAddScal a s = some c) (ha : FnRan a) :
+    FnRan c := by
+  unfold opAddScal at h
+  split_ifs at h with hf
+  · cases h; intro _; simpa using ha hf
+  · cases hr : a.ran <;> rw [hr] at h <;> simp only at h
+    · cases h; intro hfn; simp at hfn
+    · cases h
+
+/-- type of `A + vector` -/
+def addVecTy (t : Ty) (n : Nat) : Option Ty :=
+  if t.ran = .vec n then some ⟨t.dom, t.ran, false⟩ else none
+
+omit [Field K] [DecidableEq K] in
+theorem ty_opAddVec (a : Impl K) (v : Vec K) (n : Nat) :
+    (opAddVec a v n).map Impl.ty = addVecTy a.ty n := by
+  unfold opAddVec addVecTy
+  split_ifs <;> simp_all [Impl.ty]
+
+omit [Field K] [DecidableEq K] in
+theorem fnRan_opAddVec {a c : Impl K} {v : Vec K} {n : Nat} (h : opAddVec a v n = some c) :
+    FnRan c := by
+  unfold opAddVec at h
+  split_ifs at h; cases h; intro hfn; simp at hfn
+
+/-! ### completeness of the flag -/
+
+theorem lin_opRMulScal_of (a : Impl K) (s : K) (h : a.lin = true) : (opRMulScal s a).lin = true := by
+  unfold opRMulScal
+  split_ifs
+  · rfl
+  · rw [lin_mkLScal]; exact h
+  · rw [lin_mkLScal]; exact h
+
+theorem lin_opMulScal_of (env : Nat → Vec K → Vec K) {a : Impl K} (s : K) (ha : Inv env a)
+    (h : a.lin = true) : (opMulScal env a s).lin = true := by
+  unfold opMulScal
+  by_cases h1 : a.isFn = true
+  · rw [if_pos h1]
+    by_cases h2 : s = 0
+    · rw [if_pos h2]
+      have := (ha.2 h).1 0 (fun _ => 0)
+      have h0 : (fun j : Nat => (0 : K) * (fun _ => (0 : K)) j) = fun _ => 0 := by funext j; simp
+      rw [h0] at this
+      have h3 : run env a (fun _ => 0) 0 = 0 := by rw [this]; simp
+      simp only [Impl.lin_const, h3, decide_true]
+    · rw [if_neg h2, if_pos h, lin_mkLScal]; exact h
+  · rw [if_neg h1]
+    cases hp : rscalParts a with
+    | some p =>
+      obtain ⟨a', t⟩ := p
+      obtain ⟨fn, rfl⟩ := rscalParts_some hp
+      simp only [lin_mkRScal]; simpa using h
+    | none =>
+      simp only
+      rw [if_pos h]; exact lin_opRMulScal_of a s h
+
+theorem lin_opAdd {a b c : Impl K} (h : opAdd a b = some c) : c.lin = (a.lin && b.lin) := by
+  unfold opAdd mkSum at h
+  split_ifs at h <;> cases h <;> simp [Bool.and_comm]
+
+theorem lin_opMul {a b c : Impl K} (h : opMul a b = some c) : c.lin = (a.lin && b.lin) := by
+  unfold opMul at h
+  split_ifs at h; cases h; rfl
+
+theorem lin_opMulVec {a c : Impl K} {v : VecLit K} (h : opMulVec a v = some c) :
+    c.lin = if a.isFn then false else a.lin := by
+  unfold opMulVec at h
+  split_ifs at h <;> cases h <;> simp_all
+
+theorem lin_opRMulVec {a c : Impl K} {v : VecLit K} (h : opRMulVec v a = some c) :
+    c.lin = a.lin := by
+  unfold opRMulVec at h
+  split_ifs at h <;> cases h <;> rfl
+
+theorem lin_opPow {a c : Impl K} {n : Nat} (h : opPow a n = some c) : c.lin = a.lin := by
+  match n, h with
+  | 1, h => simp only [opPow, Option.some.injEq] at h; subst h; rfl
+  | k + 2, h =>
+    simp only [opPow] at h
+    split_ifs at h; cases h; exact lin_powAux a _
+
 
 end OdlModel.OpAlgebra
